@@ -1,8 +1,7 @@
 (* The standards' functions assembled: HMAC over each hash, PBKDF2 over HMAC-SHA256.
    Definitions only. *)
 From Coq Require Import Arith NArith List.
-From LCP Require Import Alg.Words Alg.MDSpec Alg.Sha256Spec Alg.Sha1Spec Alg.Md5Spec Alg.HmacSpec
-     Alg.Pbkdf2Spec.
+From LCP Require Import Alg.Words Alg.MDSpec Alg.Sha256Spec Alg.Sha1Spec Alg.Md5Spec Alg.HmacSpec Alg.Pbkdf2Spec.
 Definition HMAC_SHA256_spec : list N -> list N -> list N := HMAC_spec SHA256_spec.
 Definition HMAC_SHA1_spec : list N -> list N -> list N := HMAC_spec SHA1_spec.
 Definition HMAC_MD5_spec : list N -> list N -> list N := HMAC_spec MD5_spec.
